@@ -10,10 +10,21 @@ from ..core import Ctx, pmap, proof_step, tmap
 IDENT_HDR = "\ndef snapshot(x):\n    return x\n\n"
 
 
+W_CLASS = 'class W:\n    def __repr__(self):\n        return "<W>"\n\n    def __eq__(self, o):\n        return True if isinstance(o, W) else NotImplemented\n\n\n'
+# module-level snapshots that need a NEW import (HasRepr / external), with further top-level imports below them
+IMPORT_PROJECTS = [
+    'import sys\nfrom inline_snapshot import snapshot\n\n\n' + W_CLASS + 's_mod = snapshot()\n\nsys.path.append("x")\nimport string\n\n\ndef test_a():\n    assert W() == s_mod\n\n\n'
+    'import json\n\n\ndef test_b():\n    assert [W()] == snapshot()\n',
+    'from inline_snapshot import snapshot, outsource\n\ne_mod = snapshot()\n\nimport string\n\n\ndef test_a():\n    assert outsource("x" * 40) == e_mod\n\n\nimport json\n',
+    '"""module docstring"""\nfrom __future__ import annotations\nfrom inline_snapshot import snapshot\n\n\n' + W_CLASS + 's_mod = snapshot()\nif True:\n    import string\n\nimport json\n\n\n'
+    'def test_a():\n    assert (W(), 1) == s_mod\n',
+]
+
+
 def gen_prog(rng, i):
     opts = {"p_missing": 1.0, "p_noncanon": 0.0, "maxdepth": 4 if i % 5 == 0 else 3, "floats": (i % 4 == 3),
             "placements": ["assert", "helper", "module", "loop"]}
-    layout = [{}, {"nonascii": True}, {"tabs": True}, {"no_final_newline": True}][i % 4]
+    layout = dict([{}, {"nonascii": True}, {"tabs": True}, {"no_final_newline": True}, {"late_import": True}, {"late_import": True, "nonascii": True}][i % 6])
     layout["per_test"] = rng.choice([1, 2, 4])
     prog = proggen.gen_program(rng, rich=(i % 2 == 0), style="assert", nsites=rng.randint(1, 5), opts=opts, layout=layout)
     prog["setup"] = ["black", "black", "noblack", "fmtcmd"][i % 4]
@@ -83,7 +94,7 @@ def run(ctx: Ctx):
         "A: single-site scripts with an empty snapshot() and create approved: created value vs Model/SnapOps.v in Coq (all five operations, nested sub-snapshots). "
         "B: programs with 1-5 empty snapshots over the supported type universe (numbers incl. floats/complex, str, bytes, None, bool, list, tuple, dict, set, frozenset, Enum, Flag, "
         "classes, dataclass, attrs, pydantic, namedtuple, defaultdict, objects with non-code repr -> HasRepr; depth <= 4) x five operations x placements (assert, helper-function "
-        "argument, module level, loop) x layouts (non-ASCII, tabs, no final newline) x {black, black missing, format-command}: after a create run the module is executed with "
+        "argument, module level, loop) x layouts (non-ASCII, tabs, no final newline, further top-level imports below module-level snapshots) x {black, black missing, format-command}: after a create run the module is executed with "
         "snapshot := identity and every test must pass. C: real pytest sessions (create, then disable), which also cover externals-free import insertion for HasRepr. "
         "D: nested values of the modelled types (None, bool, int incl. negative/big, str, bytes, list, tuple, dict, set, frozenset, Enum members, classes, dataclass, attrs, "
         "namedtuple, defaultdict; depth <= 4): the tokens of the real value_to_token vs repr_toks of Model/PyRepr.v for the abstract value the harness builds with its own rules, "
@@ -122,6 +133,10 @@ def run(ctx: Ctx):
     ctx.sample({"program_tail": progs[0]["source"][-500:], "after_tail": outs[0].get("after", "")[-500:]})
     # C
     sp = [gen_prog(ctx.rng, 2 * i) for i in range(10 if not ctx.thorough else 80)]
+    for k, p in enumerate(sp):
+        if k % 2 == 1:      # the file does not import HasRepr / external yet: the session has to add the import where the module can use it
+            p["source"] = p["source"].replace("from inline_snapshot import snapshot, Is, HasRepr, external, outsource", "from inline_snapshot import snapshot, Is, outsource")
+    sp += [{"source": s} for s in IMPORT_PROJECTS]
     for p, o in zip(sp, tmap(run_session, sp)):
         ctx.count(("session", p["source"]), True)
         if o["rc1"] not in (0, 1):
